@@ -509,4 +509,19 @@ theorem C13_update_vorticity_from_penalised_3d (nz ny nx : ℤ) (w pen vel : Vec
       call_update_vorticity_from_penalised_velocity_y_comp_stencil_3d, call_update_vorticity_from_penalised_velocity_z_comp_stencil_3d,
       hbx, hby, hbz]
 
+/-- characteristic function from a level set (3D wrapper): the generated smooth Heaviside of the level-set value cell by
+cell on the whole box (its range / monotonicity / symmetry are C19_heaviside), nothing else -/
+theorem C13_char_func_3d (T : Transc K) (nz ny nx : ℤ) (o phi : B) (hne : o ≠ phi) (eps : K) (s : Store3 B K) :
+    (∀ i j k, inBox3 nz ny nx i j k →
+      exec3 (charFunc3D T nz ny nx o phi eps) s o i j k
+        = char_func_from_level_set_via_sine_heaviside_stencil_3d T eps (s phi) i j k) ∧
+    (∀ b, b ≠ o → exec3 (charFunc3D T nz ny nx o phi eps) s b = s b) := by
+  refine ⟨?_, ?_⟩
+  · intro i j k h
+    prog_simp3 [charFunc3D, call_char_func_from_level_set_via_sine_heaviside_stencil_3d]
+    split_ifs <;> first | rfl | (exfalso; omega)
+  · intro b hb
+    apply exec3_other
+    simp [written3, Call3.written, charFunc3D, call_char_func_from_level_set_via_sine_heaviside_stencil_3d, hb]
+
 end Sopht.Props.C13
